@@ -7,6 +7,8 @@ from checks import exec_common, exec_findings
 
 def run(ctx):
     exec_common.run_property(ctx, "C06", ['kill'], 200, 2000, classify=exec_findings.classify)
+    from checks import c06_real
+    c06_real.run(ctx)
 
 
 if __name__ == "__main__":
